@@ -8,6 +8,7 @@ ROOT = Path(__file__).resolve().parent.parent
 REPO = Path(os.environ['ODFDO_REPO'])
 assert str(REPO) != '/repo'
 EC, TB, RW, CE = 'src/odfdo/element_cached.py', 'src/odfdo/table.py', 'src/odfdo/row.py', 'src/odfdo/cell.py'
+CO = 'src/odfdo/utils/coordinates.py'
 
 MUT = [
     # (name, property, expect violation?, [(file, old, new)])
@@ -42,6 +43,14 @@ MUT = [
     ('table_name_no_strip', 'C07', True, [(TB, '    name = name.strip()\n    if not name:\n        raise ValueError("Empty name not allowed.")', '    if not name:\n        raise ValueError("Empty name not allowed.")')]),
     ('row_repeated_attr_one', 'C07', True, [(RW, '        if repeated is None or repeated < 2:\n            with contextlib.suppress(KeyError):\n                self.del_attribute("table:number-rows-repeated")',
                                              '        if repeated is None or repeated < 1:\n            with contextlib.suppress(KeyError):\n                self.del_attribute("table:number-rows-repeated")')]),
+    # round 2: coordinate forms, live handles, wrappers, area reads
+    ('string_row_off_by_one', 'C01', True, [(CO, '            line = int(coord[len(alpha) :]) - 1', '            line = int(coord[len(alpha) :])')]),
+    ('live_row_is_a_copy', 'C01', True, [(TB, '        if clone:\n            return row.clone\n        return row\n\n    def _get_row2_base', '        return row.clone\n\n    def _get_row2_base')]),
+    ('append_column_by_child_index', 'C07', True, [(TB, '            last_element = last_column._Element__element\n            parent = last_element.getparent()\n            parent.insert(parent.index(last_element) + 1, column._Element__element)', '            self.insert(column, position=self.index(last_column) + 1)')]),
+    ('set_column_cells_row_relative_x', 'C01', True, [(TB, '        x = self._translate_x_from_any(x)\n        height = self.height\n        if len(cells) != height:', '        height = self.height\n        if len(cells) != height:')]),
+    ('get_cells_area_end_exclusive', 'C01', True, [(TB, '            for row in self.traverse(start=y, end=t):\n                row_cells = row.get_cells(\n                    coord=(x, z),\n                    cell_type=cell_type,\n                    style=style,\n                    content=content,\n                )\n                lcells.append(row_cells)', '            for row in self.traverse(start=y, end=t):\n                row_cells = row.get_cells(\n                    coord=(x, z - 1 if z else z),\n                    cell_type=cell_type,\n                    style=style,\n                    content=content,\n                )\n                lcells.append(row_cells)')]),
+    ('set_item_clone_after_touching_current', 'C01', True, [(EC, '    if clone:\n        new_item = item.clone\n    else:\n        new_item = item\n    if repeated_before >= 1:\n        # Update repetition\n        current_item._set_repeated(repeated_before)\n        target_idx += 1\n    else:\n        # Replacing the first occurence\n        vault.delete(current_item)\n    # Insert new element\n    vault.insert(new_item, position=target_idx)',
+        '    if repeated_before >= 1:\n        # Update repetition\n        current_item._set_repeated(repeated_before)\n        target_idx += 1\n    else:\n        # Replacing the first occurence\n        vault.delete(current_item)\n    # Insert new element\n    if clone:\n        new_item = item.clone\n    else:\n        new_item = item\n    vault.insert(new_item, position=target_idx)')]),
     # behaviour-preserving rewrites
     ('rw_insert_map_once_insert', 'C01', False, [(EC, '    new_map = orig_map[:odf_idx]\n    new_map.append(juska)\n    new_map.extend([(x + repeated) for x in orig_map[odf_idx:]])\n    return new_map',
                                                   '    new_map = [(x + repeated) for x in orig_map]\n    new_map[:odf_idx] = orig_map[:odf_idx]\n    new_map.insert(odf_idx, juska)\n    return new_map')]),
